@@ -495,7 +495,9 @@ func (w *World) setParams(rec *StepRec, a Action) {
 		rec.Err = err.Error()
 		return
 	}
-	w.k.SetParams(w.ctx, p)
+	// as a parameter-change proposal does it: written to the module's parameter subspace directly, not
+	// through the module's keeper (which therefore must not hold a copy of its own)
+	w.app.GetSubspace(types.ModuleName).SetParamSet(w.ctx, &p)
 	w.cfg = n
 	rec.OK = true
 }
